@@ -59,6 +59,8 @@ fn main() {
     local!(t_across_count, c30::t_across_count, 1);
     local!(t_across_fold, c30::t_across_fold, 1);
     local!(t_noorder_count, c30::t_noorder_count, 1);
+    local!(t_clone_into_tick, c30::t_clone_into_tick, 1);
+    local!(t_clone_into_tick_opt, c30::t_clone_into_tick_opt, 1);
 
 
     use e4_flows::c28;
